@@ -3,7 +3,7 @@ from hypothesis import strategies as st
 
 VALUES = ["a", "bc", "xyz", "q", "", "mn"]
 SLOT_NAMES = ["a", "b", "s1", "s2", "default", "x-y", "\u00e91"]  # incl. a name that needs escaping in is_filled and a non-ASCII one
-DATA_KEYS = ["k1", "k2"]
+DATA_KEYS = ["k1", "context"]  # the second name is also a parameter of every tag's own render(self, context, ...)
 ELEM_TAGS = ["div", "span", "p", "section"]
 
 DEFAULT_CFG = {
@@ -195,9 +195,9 @@ class Builder:
             key = "pk1" if self.chance(65) else "pk2"
             kwargs = {"f1": self.expr(scope)}
             if self.chance(40):
-                kwargs["f2"] = self.expr(scope)
+                kwargs["context"] = self.expr(scope)  # a field named like a parameter of the tag's own render(self, context, ...)
                 if self.chance(50):
-                    kwargs = {"f2": kwargs["f2"], "f1": kwargs["f1"]}  # same names, other order
+                    kwargs = {"context": kwargs["context"], "f1": kwargs["f1"]}  # same names, other order
             if self.chance(8):
                 return {"t": "provide", "key": key, "kwargs": kwargs, "c": []}  # a provider with nothing in it
             body = self.nodes(scope, depth + 1, comp_index, 1, where)
@@ -389,7 +389,7 @@ class Builder:
         if self.cfg["inject"] and self.chance(int(self.cfg.get("inject_pct", 60))):
             for _ in range(self.integer(1, 2)):
                 dflt = self.pick([None, "dfl", "dfl", ""])  # incl. a falsy default
-                spec["data"].append([self.name("j"), ["inject", "pk1" if self.chance(65) else "pk2", self.pick(["f1", "f1", "f2"]), dflt]])
+                spec["data"].append([self.name("j"), ["inject", "pk1" if self.chance(65) else "pk2", self.pick(["f1", "f1", "context"]), dflt]])
         if self.cfg["idecho"]:
             spec["data"].append([self.fresh("id"), ["id"]])
         if self.cfg["hooks"]:
